@@ -1,1 +1,718 @@
+/-
+Lemmas for property C01: the reified constructors `newConj / newDisj / newEq` under PARTIAL
+assignments at a unit-propagation fixpoint.
+
+`PAsg`, `plit`, `BcpFix` are copies of the definitions of `OratioProofs/Properties/C01.lean`
+(which imports this file – the copies are definitionally equal to the originals).
+
+The syntactic invariant `PInv`: for every cached expression `(key, l)` and every fixpoint `ρ` of
+the state, once the argument literals of the key are decided, `l` is decided with the value of the
+expression.  Every constructor keeps it (`conj_p`, `disj_p`, `eq_p`), only adds clauses and root
+values (`Mono`), and returns a literal with that same property.
+Core Lean only.
+-/
 import OratioModel
+import OratioProofs.Lemmas.EncJunct
+
+namespace Oratio
+namespace FormL
+open Enc EncL
+
+/-! ## vocabulary -/
+
+abbrev PAsg := Nat → Option Bool
+def plit (ρ : PAsg) (l : Lit) : Option Bool := (ρ l.var).map (fun b => if l.sign then b else !b)
+
+/-- the value of a literal, `false` when undecided -/
+def val (ρ : PAsg) (l : Lit) : Bool := (plit ρ l).getD false
+
+/-- a clause is neither falsified nor unit under `ρ` -/
+def Resp (ρ : PAsg) (c : List Lit) : Prop :=
+  (∃ l ∈ c, plit ρ l = some true) ∨ (∃ l₁ ∈ c, ∃ l₂ ∈ c, l₁ ≠ l₂ ∧ plit ρ l₁ = none ∧ plit ρ l₂ = none)
+
+def BcpFix (ρ : PAsg) (s : Enc) : Prop :=
+  ρ 0 = some false ∧
+  (∀ v b, s.vals.getD v none = some b → ρ v = some b) ∧
+  ∀ c ∈ s.clauses, Resp ρ c
+
+/-- `s'` has every clause and every root value of `s` -/
+def Mono (s s' : Enc) : Prop :=
+  (∀ c ∈ s.clauses, c ∈ s'.clauses) ∧ ∀ v b, s.vals.getD v none = some b → s'.vals.getD v none = some b
+
+/-- meaning of a cached expression under a partial assignment -/
+def PKeySem (ρ : PAsg) : Key → Lit → Prop
+  | .eq a b, l => plit ρ a ≠ none → plit ρ b ≠ none → plit ρ l = some (val ρ a == val ρ b)
+  | .conj ls, l => (∀ x ∈ ls, plit ρ x ≠ none) → plit ρ l = some (ls.all (val ρ))
+  | .disj ls, l => (∀ x ∈ ls, plit ρ x ≠ none) → plit ρ l = some (ls.any (val ρ))
+  | .amo _, _ => True
+  | .exo _, _ => True
+
+def PInv (s : Enc) : Prop := ∀ e ∈ s.exprs, ∀ ρ, BcpFix ρ s → PKeySem ρ e.1 e.2
+
+/-! ## partial assignments -/
+
+theorem plit_neg (ρ : PAsg) (l : Lit) : plit ρ l.neg = (plit ρ l).map (!·) := by
+  cases l with | mk v sg =>
+  simp only [plit, Lit.neg]
+  cases ρ v <;> cases sg <;> simp
+
+theorem plit_neg_some {ρ : PAsg} {l : Lit} {b : Bool} (h : plit ρ l = some b) : plit ρ l.neg = some (!b) := by
+  rw [plit_neg, h]; rfl
+
+theorem plit_neg_none {ρ : PAsg} {l : Lit} (h : plit ρ l = none) : plit ρ l.neg = none := by
+  rw [plit_neg, h]; rfl
+
+theorem plit_of_neg_some {ρ : PAsg} {l : Lit} {b : Bool} (h : plit ρ l.neg = some b) : plit ρ l = some (!b) := by
+  have := plit_neg_some h
+  rwa [neg_neg] at this
+
+theorem val_of_some {ρ : PAsg} {l : Lit} {b : Bool} (h : plit ρ l = some b) : val ρ l = b := by
+  simp [val, h]
+
+theorem plit_eq_val {ρ : PAsg} {l : Lit} (h : plit ρ l ≠ none) : plit ρ l = some (val ρ l) := by
+  cases hp : plit ρ l with
+  | none => exact absurd hp h
+  | some b => simp [val, hp]
+
+theorem val_neg {ρ : PAsg} {l : Lit} (h : plit ρ l ≠ none) : val ρ l.neg = !val ρ l := by
+  have := plit_eq_val h
+  exact val_of_some (plit_neg_some this)
+
+theorem plit_falseLit {ρ : PAsg} (h : ρ 0 = some false) : plit ρ Lit.falseLit = some false := by
+  simp [plit, Lit.falseLit, h]
+
+theorem plit_trueLit {ρ : PAsg} (h : ρ 0 = some false) : plit ρ Lit.trueLit = some true := by
+  simp [plit, Lit.trueLit, h]
+
+theorem plit_of_value {ρ : PAsg} {s : Enc} (h : ∀ v b, s.vals.getD v none = some b → ρ v = some b)
+    {l : Lit} {b : Bool} (hv : s.value l = some b) : plit ρ l = some b := by
+  unfold Enc.value litValue at hv
+  split at hv
+  · cases hv
+  · next c hc =>
+    simp only [plit, h _ _ hc, Option.map_some]
+    exact hv
+
+/-! ## clauses at the fixpoint -/
+
+theorem Resp.mono {ρ : PAsg} {c c' : List Lit} (h : ∀ l ∈ c, l ∈ c') (hr : Resp ρ c) : Resp ρ c' := by
+  rcases hr with ⟨l, hl, h1⟩ | ⟨l₁, h1, l₂, h2, hne, hn1, hn2⟩
+  · exact Or.inl ⟨l, h l hl, h1⟩
+  · exact Or.inr ⟨l₁, h l₁ h1, l₂, h l₂ h2, hne, hn1, hn2⟩
+
+/-- all literals but `x` are false: `x` is true (the clause is not unit, not falsified) -/
+theorem Resp.unit {ρ : PAsg} {c : List Lit} {x : Lit} (hr : Resp ρ c)
+    (h : ∀ l ∈ c, l = x ∨ plit ρ l = some false) : plit ρ x = some true := by
+  rcases hr with ⟨l, hl, h1⟩ | ⟨l₁, h1, l₂, h2, hne, hn1, hn2⟩
+  · rcases h l hl with rfl | h2
+    · exact h1
+    · rw [h1] at h2; cases h2
+  · rcases h l₁ h1 with rfl | h3
+    · rcases h l₂ h2 with rfl | h4
+      · exact absurd rfl hne
+      · rw [hn2] at h4; cases h4
+    · rw [hn1] at h3; cases h3
+
+theorem Mono.refl (s : Enc) : Mono s s := ⟨fun _ h => h, fun _ _ h => h⟩
+theorem Mono.trans {a b c : Enc} (h1 : Mono a b) (h2 : Mono b c) : Mono a c :=
+  ⟨fun x hx => h2.1 x (h1.1 x hx), fun v b hv => h2.2 v b (h1.2 v b hv)⟩
+
+theorem BcpFix.mono {ρ : PAsg} {s s' : Enc} (h : Mono s s') (hρ : BcpFix ρ s') : BcpFix ρ s :=
+  ⟨hρ.1, fun v b hv => hρ.2.1 v b (h.2 v b hv), fun c hc => hρ.2.2 c (h.1 c hc)⟩
+
+theorem PInv.mono {s s' : Enc} (h : Mono s s') (he : s'.exprs = s.exprs) (hp : PInv s) : PInv s' := by
+  intro e he' ρ hρ
+  rw [he] at he'
+  exact hp e he' ρ (BcpFix.mono h hρ)
+
+/-! ## Tseitin definitions at the fixpoint -/
+
+theorem conj_resp {ρ : PAsg} {ctr : Lit} {ls : List Lit}
+    (hbin : ∀ l ∈ ls, Resp ρ [ctr.neg, l]) (hlong : Resp ρ (ctr :: ls.map Lit.neg))
+    (hd : ∀ x ∈ ls, plit ρ x ≠ none) : plit ρ ctr = some (ls.all (val ρ)) := by
+  cases hall : ls.all (val ρ) with
+  | true =>
+    rw [List.all_eq_true] at hall
+    refine Resp.unit hlong (fun l hl => ?_)
+    simp only [List.mem_cons, List.mem_map] at hl
+    rcases hl with rfl | ⟨y, hy, rfl⟩
+    · exact Or.inl rfl
+    · right
+      have := plit_eq_val (hd y hy)
+      rw [hall y hy] at this
+      exact plit_neg_some this
+  | false =>
+    rw [List.all_eq_false] at hall
+    obtain ⟨y, hy, hy2⟩ := hall
+    have hyv := plit_eq_val (hd y hy)
+    simp only [Bool.not_eq_true] at hy2
+    rw [hy2] at hyv
+    have : plit ρ ctr.neg = some true := by
+      refine Resp.unit (hbin y hy) (fun l hl => ?_)
+      simp only [List.mem_cons, List.not_mem_nil, or_false] at hl
+      rcases hl with rfl | rfl
+      · exact Or.inl rfl
+      · exact Or.inr hyv
+    exact plit_of_neg_some this
+
+theorem disj_resp {ρ : PAsg} {ctr : Lit} {ls : List Lit}
+    (hbin : ∀ l ∈ ls, Resp ρ [l.neg, ctr]) (hlong : Resp ρ (ctr.neg :: ls))
+    (hd : ∀ x ∈ ls, plit ρ x ≠ none) : plit ρ ctr = some (ls.any (val ρ)) := by
+  cases hany : ls.any (val ρ) with
+  | false =>
+    rw [List.any_eq_false] at hany
+    have : plit ρ ctr.neg = some true := by
+      refine Resp.unit hlong (fun l hl => ?_)
+      simp only [List.mem_cons] at hl
+      rcases hl with rfl | hl
+      · exact Or.inl rfl
+      · right
+        have := plit_eq_val (hd l hl)
+        have h2 := hany l hl
+        simp only [Bool.not_eq_true] at h2
+        rwa [h2] at this
+    exact plit_of_neg_some this
+  | true =>
+    rw [List.any_eq_true] at hany
+    obtain ⟨y, hy, hy2⟩ := hany
+    have hyv := plit_eq_val (hd y hy)
+    rw [hy2] at hyv
+    refine Resp.unit (hbin y hy) (fun l hl => ?_)
+    simp only [List.mem_cons, List.not_mem_nil, or_false] at hl
+    rcases hl with rfl | rfl
+    · exact Or.inr (plit_neg_some hyv)
+    · exact Or.inl rfl
+
+theorem eq_resp {ρ : PAsg} {ctr a b : Lit}
+    (h1 : Resp ρ [ctr.neg, a.neg, b]) (h2 : Resp ρ [ctr.neg, a, b.neg])
+    (h3 : Resp ρ [ctr, a.neg, b.neg]) (h4 : Resp ρ [ctr, a, b])
+    (ha : plit ρ a ≠ none) (hb : plit ρ b ≠ none) : plit ρ ctr = some (val ρ a == val ρ b) := by
+  have hav := plit_eq_val ha
+  have hbv := plit_eq_val hb
+  have key : ∀ {x y z : Lit} {c : Lit}, Resp ρ [c, y, z] → plit ρ y = some false → plit ρ z = some false →
+      plit ρ c = some true := by
+    intro x y z c hr hy hz
+    refine Resp.unit hr (fun l hl => ?_)
+    simp only [List.mem_cons, List.not_mem_nil, or_false] at hl
+    rcases hl with rfl | rfl | rfl
+    · exact Or.inl rfl
+    · exact Or.inr hy
+    · exact Or.inr hz
+  cases hva : val ρ a <;> cases hvb : val ρ b <;> rw [hva] at hav <;> rw [hvb] at hbv
+  · exact key (x := a) h4 hav hbv
+  · exact plit_of_neg_some (key (x := a) h2 hav (plit_neg_some hbv))
+  · exact plit_of_neg_some (key (x := a) h1 (plit_neg_some hav) hbv)
+  · exact key (x := a) h3 (plit_neg_some hav) (plit_neg_some hbv)
+
+/-! ## the filtering loop, syntactically -/
+
+/-- `none`: an argument is the absorbing constant at root level, or two arguments are complementary -/
+theorem scan_none_syn {s : Enc} {abs : Bool} : ∀ (rest : List Lit) (p : Option Lit) (acc : List Lit),
+    (∀ q, p = some q → q ∈ acc) → scanJunct s abs rest p acc = none →
+    (∃ l ∈ rest, s.value l = some abs) ∨ (∃ l, (l ∈ acc ∨ l ∈ rest) ∧ l.neg ∈ rest) := by
+  intro rest
+  induction rest with
+  | nil => intro p acc _ h; simp [scanJunct] at h
+  | cons l rest ih =>
+    intro p acc hp h
+    simp only [scanJunct] at h
+    split at h
+    · next hc =>
+      simp only [Bool.or_eq_true, decide_eq_true_eq] at hc
+      rcases hc with hc | hc
+      · exact Or.inl ⟨l, by simp, hc⟩
+      · cases p with
+        | none => simp at hc
+        | some q =>
+          simp only [Option.map_some, Option.some.injEq] at hc
+          exact Or.inr ⟨q, Or.inl (hp q rfl), by simp [hc]⟩
+    · split at h
+      · rcases ih (some l) (l :: acc) (by intro q hq; cases hq; simp) h with ⟨x, hx, hx2⟩ | ⟨x, hx, hx2⟩
+        · exact Or.inl ⟨x, by simp [hx], hx2⟩
+        · refine Or.inr ⟨x, ?_, by simp [hx2]⟩
+          simp only [List.mem_cons] at hx ⊢
+          rcases hx with (hx | hx) | hx
+          · exact Or.inr (Or.inl hx)
+          · exact Or.inl hx
+          · exact Or.inr (Or.inr hx)
+      · rcases ih p acc hp h with ⟨x, hx, hx2⟩ | ⟨x, hx, hx2⟩
+        · exact Or.inl ⟨x, by simp [hx], hx2⟩
+        · refine Or.inr ⟨x, ?_, by simp [hx2]⟩
+          rcases hx with hx | hx
+          · exact Or.inl hx
+          · exact Or.inr (by simp [hx])
+
+/-- `some ls'`: every argument is the neutral constant at root level or is kept -/
+theorem scan_some_syn {s : Enc} {abs : Bool} : ∀ (rest : List Lit) (p : Option Lit) (acc : List Lit),
+    (∀ q, p = some q → q ∈ acc) → ∀ ls', scanJunct s abs rest p acc = some ls' →
+    ∀ l ∈ rest, s.value l = some (!abs) ∨ l ∈ ls' := by
+  intro rest
+  induction rest with
+  | nil => intro p acc _ ls' _ l hl; cases hl
+  | cons l rest ih =>
+    intro p acc hp ls' h x hx
+    simp only [scanJunct] at h
+    split at h
+    · cases h
+    · split at h
+      · have hp' : ∀ q, some l = some q → q ∈ l :: acc := by intro q hq; cases hq; simp
+        obtain ⟨_, _, i3, _⟩ := scanJunct_some rest (some l) (l :: acc) hp' ls' h
+        simp only [List.mem_cons] at hx
+        rcases hx with rfl | hx
+        · exact Or.inr (i3 x (by simp))
+        · exact ih (some l) (l :: acc) hp' ls' h x hx
+      · next hc2 =>
+        obtain ⟨_, _, i3, _⟩ := scanJunct_some rest p acc hp ls' h
+        simp only [List.mem_cons] at hx
+        rcases hx with rfl | hx
+        · simp only [Bool.and_eq_true, ne_eq, decide_eq_true_eq, not_and, Decidable.not_not] at hc2
+          by_cases hv : s.value x = some (!abs)
+          · exact Or.inl hv
+          · exact Or.inr (i3 x (hp x (hc2 hv)))
+        · exact ih p acc hp ls' h x hx
+
+theorem bool_cases_abs (x abs : Bool) : x = abs ∨ x = !abs := by cases x <;> cases abs <;> simp
+
+/-- `none`, under a fixpoint that decides the arguments: some argument has the absorbing value -/
+theorem scan_none_p {ρ : PAsg} {s : Enc} {abs : Bool} {ls : List Lit}
+    (hρ : ∀ v b, s.vals.getD v none = some b → ρ v = some b)
+    (h : scanJunct s abs ls none [] = none) (hd : ∀ x ∈ ls, plit ρ x ≠ none) :
+    ∃ l ∈ ls, val ρ l = abs := by
+  rcases scan_none_syn ls none [] (by simp) h with ⟨l, hl, hv⟩ | ⟨l, hl, hl2⟩
+  · exact ⟨l, hl, val_of_some (plit_of_value hρ hv)⟩
+  · have hl : l ∈ ls := by simpa using hl
+    rcases bool_cases_abs (val ρ l) abs with h1 | h1
+    · exact ⟨l, hl, h1⟩
+    · refine ⟨l.neg, hl2, ?_⟩
+      rw [val_neg (hd l hl), h1]; simp
+
+/-- `some ls'`: the kept literals decide the connective -/
+theorem scan_some_p {ρ : PAsg} {s : Enc} {abs : Bool} {ls ls' : List Lit}
+    (hρ : ∀ v b, s.vals.getD v none = some b → ρ v = some b)
+    (h : scanJunct s abs ls none [] = some ls') :
+    ((∃ l ∈ ls', val ρ l = abs) ↔ ∃ l ∈ ls, val ρ l = abs) := by
+  obtain ⟨j1, _, _⟩ := scanJunct_init_some h
+  constructor
+  · rintro ⟨l, hl, hl2⟩; exact ⟨l, j1 l hl, hl2⟩
+  · rintro ⟨l, hl, hl2⟩
+    rcases scan_some_syn ls none [] (by simp) ls' h l hl with hv | hm
+    · have := val_of_some (plit_of_value hρ hv)
+      rw [hl2] at this
+      cases abs <;> simp at this
+    · exact ⟨l, hm, hl2⟩
+
+theorem all_congr_f {f : Lit → Bool} {a b : List Lit}
+    (h : (∃ l ∈ a, f l = false) ↔ (∃ l ∈ b, f l = false)) : a.all f = b.all f := by
+  have : ∀ c : List Lit, c.all f = true ↔ ¬ ∃ l ∈ c, f l = false := by intro c; simp
+  rw [Bool.eq_iff_iff, this, this, h]
+
+theorem any_congr_f {f : Lit → Bool} {a b : List Lit}
+    (h : (∃ l ∈ a, f l = true) ↔ (∃ l ∈ b, f l = true)) : a.any f = b.any f := by
+  have : ∀ c : List Lit, c.any f = true ↔ ∃ l ∈ c, f l = true := by intro c; simp
+  rw [Bool.eq_iff_iff, this, this, h]
+
+theorem exists_sorted_f {f : Lit → Bool} {ls : List Lit} {b : Bool} :
+    (∃ l ∈ sortByVar ls, f l = b) ↔ ∃ l ∈ ls, f l = b :=
+  ⟨fun ⟨l, hl, h⟩ => ⟨l, mem_sortByVar.1 hl, h⟩, fun ⟨l, hl, h⟩ => ⟨l, mem_sortByVar.2 hl, h⟩⟩
+
+/-! ## `newClause`, `newClauses` -/
+
+theorem newClause_p {s : Enc} {c : List Lit} (hc : InRange s c) :
+    Mono s (s.newClause c).2 ∧
+    ((s.newClause c).1 = true → ∀ ρ, BcpFix ρ (s.newClause c).2 → Resp ρ c) := by
+  unfold Enc.newClause
+  rw [scanClause_eq]
+  cases h : scanJunct s true (sortByVar c) none [] with
+  | none =>
+    refine ⟨Mono.refl s, fun _ ρ hρ => ?_⟩
+    rcases scan_none_syn _ none [] (by simp) h with ⟨l, hl, hv⟩ | ⟨l, hl, hl2⟩
+    · exact Or.inl ⟨l, mem_sortByVar.1 hl, plit_of_value hρ.2.1 hv⟩
+    · have hl : l ∈ c := mem_sortByVar.1 (by simpa using hl)
+      have hl2 : l.neg ∈ c := mem_sortByVar.1 hl2
+      cases hp : plit ρ l with
+      | none => exact Or.inr ⟨l, hl, l.neg, hl2, (neg_ne l).symm, hp, plit_neg_none hp⟩
+      | some b =>
+        cases b with
+        | false => exact Or.inl ⟨l.neg, hl2, plit_neg_some hp⟩
+        | true => exact Or.inl ⟨l, hl, hp⟩
+  | some ls' =>
+    obtain ⟨j1, j2, _⟩ := scanJunct_init_some h
+    match ls', j1, j2 with
+    | [], _, _ => exact ⟨Mono.refl s, fun hf => by cases hf⟩
+    | [l], j1, j2 =>
+      have hn : s.value l = none := j2 l (by simp)
+      have hl : l.var < s.nvars := hc l (mem_sortByVar.1 (j1 l (by simp)))
+      simp only [Enc.enqueue, hn]
+      refine ⟨⟨fun c hc => hc, fun v b hv => ?_⟩, fun _ ρ hρ => ?_⟩
+      · show (s.vals.set l.var (some l.sign)).getD v none = some b
+        rw [getD_set s.vals hl]
+        split
+        · next hvl => subst hvl; rw [(value_none_iff s l).1 hn] at hv; cases hv
+        · exact hv
+      · refine Or.inl ⟨l, mem_sortByVar.1 (j1 l (by simp)), ?_⟩
+        have := hρ.2.1 l.var l.sign (by
+          show (s.vals.set l.var (some l.sign)).getD l.var none = some l.sign
+          rw [getD_set s.vals hl]; simp)
+        simp only [plit, this, Option.map_some]
+        cases l.sign <;> rfl
+    | l1 :: l2 :: t, j1, _ =>
+      refine ⟨⟨fun c hc => List.mem_append_left _ hc, fun v b hv => hv⟩, fun _ ρ hρ => ?_⟩
+      exact Resp.mono (fun l hl => mem_sortByVar.1 (j1 l hl)) (hρ.2.2 _ (by simp))
+
+/-- two undecided literals over different variables: the clause is posted (or is a tautology);
+    no root value changes -/
+theorem newClause_ok {s : Enc} {c : List Lit} {a b : Lit} (ha : a ∈ c) (hb : b ∈ c) (hab : a.var ≠ b.var)
+    (hva : s.value a = none) (hvb : s.value b = none) :
+    (s.newClause c).1 = true ∧ (s.newClause c).2.vals = s.vals ∧ (s.newClause c).2.exprs = s.exprs := by
+  unfold Enc.newClause
+  rw [scanClause_eq]
+  cases h : scanJunct s true (sortByVar c) none [] with
+  | none => exact ⟨rfl, rfl, rfl⟩
+  | some ls' =>
+    have ha' : a ∈ ls' := by
+      rcases scan_some_syn _ none [] (by simp) ls' h a (mem_sortByVar.2 ha) with hv | hm
+      · rw [hva] at hv; cases hv
+      · exact hm
+    have hb' : b ∈ ls' := by
+      rcases scan_some_syn _ none [] (by simp) ls' h b (mem_sortByVar.2 hb) with hv | hm
+      · rw [hvb] at hv; cases hv
+      · exact hm
+    match ls', ha', hb' with
+    | [], ha', _ => cases ha'
+    | [l], ha', hb' =>
+      simp only [List.mem_singleton] at ha' hb'
+      subst ha'; subst hb'
+      exact absurd rfl hab
+    | l1 :: l2 :: t, _, _ => exact ⟨rfl, rfl, rfl⟩
+
+theorem newClauses_p : ∀ (cs : List (List Lit)) {s : Enc},
+    (∀ c ∈ cs, InRange s c) →
+    (∀ c ∈ cs, ∃ a ∈ c, ∃ b ∈ c, a.var ≠ b.var ∧ s.value a = none ∧ s.value b = none) →
+    (s.newClauses cs).1 = true ∧ (s.newClauses cs).2.vals = s.vals ∧ (s.newClauses cs).2.exprs = s.exprs ∧
+    Mono s (s.newClauses cs).2 ∧ ∀ ρ, BcpFix ρ (s.newClauses cs).2 → ∀ c ∈ cs, Resp ρ c := by
+  intro cs
+  induction cs with
+  | nil =>
+    intro s _ _
+    exact ⟨rfl, rfl, rfl, Mono.refl s, fun _ _ c hc => by cases hc⟩
+  | cons c cs ih =>
+    intro s hr hok
+    obtain ⟨a, ha, b, hb, hab, hva, hvb⟩ := hok c (by simp)
+    obtain ⟨k1, k2, k3⟩ := newClause_ok ha hb hab hva hvb
+    obtain ⟨m1, m2⟩ := newClause_p (hr c (by simp))
+    simp only [Enc.newClauses]
+    rcases hnc : s.newClause c with ⟨ok, s'⟩
+    rw [hnc] at k1 k2 k3 m1 m2
+    simp only at k1 k2 k3 m1 m2
+    subst k1
+    have hr' : ∀ c ∈ cs, InRange s' c := fun c' hc' l hl => by
+      show l.var < s'.vals.length
+      rw [k2]; exact hr c' (by simp [hc']) l hl
+    have hok' : ∀ c ∈ cs, ∃ a ∈ c, ∃ b ∈ c, a.var ≠ b.var ∧ s'.value a = none ∧ s'.value b = none := by
+      intro c' hc'
+      obtain ⟨a, ha, b, hb, hab, hva, hvb⟩ := hok c' (by simp [hc'])
+      refine ⟨a, ha, b, hb, hab, ?_, ?_⟩
+      · show litValue s'.vals a = none
+        rw [k2]; exact hva
+      · show litValue s'.vals b = none
+        rw [k2]; exact hvb
+    obtain ⟨i1, i2, i3, i4, i5⟩ := ih hr' hok'
+    refine ⟨i1, i2.trans k2, i3.trans k3, Mono.trans m1 i4, fun ρ hρ c' hc' => ?_⟩
+    simp only [List.mem_cons] at hc'
+    rcases hc' with rfl | hc'
+    · exact m2 rfl ρ (BcpFix.mono i4 hρ)
+    · exact i5 ρ hρ c' hc'
+
+/-! ## a fresh variable defined by clauses -/
+
+theorem value_fresh (s : Enc) (b : Bool) : s.newVar.2.value ⟨s.nvars, b⟩ = none := by
+  simp [Enc.value, litValue, Enc.newVar, Enc.nvars]
+
+theorem value_old (s : Enc) (l : Lit) : s.newVar.2.value l = s.value l := value_addVars s 1 l
+
+theorem mono_newVar (s : Enc) : Mono s s.newVar.2 :=
+  ⟨fun _ h => h, fun v b hv => by
+    show (s.vals ++ List.replicate 1 none).getD v none = some b
+    rw [getD_append_none]; exact hv⟩
+
+theorem freshDef_p {s : Enc} (k : Key) (cs : Lit → List (List Lit))
+    (hcs : ∀ c ∈ cs ⟨s.nvars, true⟩, ∀ l ∈ c, l.var < s.nvars + 1)
+    (hok : ∀ c ∈ cs ⟨s.nvars, true⟩, ∃ a ∈ c, ∃ b ∈ c, a.var ≠ b.var ∧
+      s.newVar.2.value a = none ∧ s.newVar.2.value b = none) :
+    (freshDef s k cs).1 = ⟨s.nvars, true⟩ ∧ Mono s (freshDef s k cs).2 ∧
+    (freshDef s k cs).2.exprs = s.exprs ++ [(k, ⟨s.nvars, true⟩)] ∧
+    ∀ ρ, BcpFix ρ (freshDef s k cs).2 → ∀ c ∈ cs ⟨s.nvars, true⟩, Resp ρ c := by
+  have hn1 : s.newVar.2.nvars = s.nvars + 1 := nvars_addVars s 1
+  have hcs' : ∀ c ∈ cs ⟨s.nvars, true⟩, InRange s.newVar.2 c := fun c hc l hl => by
+    rw [hn1]; exact hcs c hc l hl
+  obtain ⟨i1, _, i3, i4, i5⟩ := newClauses_p (cs ⟨s.nvars, true⟩) hcs' hok
+  unfold freshDef
+  rcases hnc : s.newVar.2.newClauses (cs ⟨s.nvars, true⟩) with ⟨b, s2⟩
+  rw [hnc] at i1 i3 i4 i5
+  simp only at i1 i3 i4 i5
+  subst i1
+  refine ⟨rfl, Mono.trans (mono_newVar s) i4, ?_, fun ρ hρ => i5 ρ hρ⟩
+  show s2.exprs ++ _ = _
+  rw [i3]; rfl
+
+/-! ## `newConj` -/
+
+theorem conj_p {s : Enc} (hp : PInv s) {ls : List Lit} (hl : InRange s ls) :
+    Mono s (s.newConj ls).2 ∧ PInv (s.newConj ls).2 ∧
+    ∀ ρ, BcpFix ρ (s.newConj ls).2 → (∀ x ∈ ls, plit ρ x ≠ none) →
+      plit ρ (s.newConj ls).1 = some (ls.all (val ρ)) := by
+  unfold Enc.newConj
+  cases hsc : scanJunct s false (sortByVar ls) none [] with
+  | none =>
+    refine ⟨Mono.refl s, hp, fun ρ hρ hd => ?_⟩
+    obtain ⟨l, hl1, hl2⟩ := scan_none_p hρ.2.1 hsc (fun x hx => hd x (mem_sortByVar.1 hx))
+    show plit ρ Lit.falseLit = _
+    rw [plit_falseLit hρ.1]
+    congr 1
+    symm
+    rw [List.all_eq_false]
+    exact ⟨l, mem_sortByVar.1 hl1, by simp [hl2]⟩
+  | some ls' =>
+    obtain ⟨j1, j2, _⟩ := scanJunct_init_some hsc
+    have hall : ∀ ρ, BcpFix ρ s → ls'.all (val ρ) = ls.all (val ρ) := fun ρ hρ =>
+      all_congr_f ((scan_some_p hρ.2.1 hsc).trans exists_sorted_f)
+    have hsub : ∀ l ∈ ls', l ∈ ls := fun l hl' => mem_sortByVar.1 (j1 l hl')
+    have hrange : ∀ l ∈ ls', l.var < s.nvars := fun l hl' => hl l (hsub l hl')
+    match ls', hall, hsub, hrange, j2 with
+    | [], hall, _, _, _ =>
+      refine ⟨Mono.refl s, hp, fun ρ hρ _ => ?_⟩
+      show plit ρ Lit.trueLit = _
+      rw [plit_trueLit hρ.1, ← hall ρ hρ]; rfl
+    | [l], hall, hsub, _, _ =>
+      refine ⟨Mono.refl s, hp, fun ρ hρ hd => ?_⟩
+      show plit ρ l = _
+      rw [← hall ρ hρ, plit_eq_val (hd l (hsub l (by simp)))]; simp
+    | l1 :: l2 :: t, hall, hsub, hrange, j2 =>
+      dsimp only
+      cases hlk : s.lookup (.conj (l1 :: l2 :: t)) with
+      | some l =>
+        refine ⟨Mono.refl s, hp, fun ρ hρ hd => ?_⟩
+        show plit ρ l = _
+        rw [← hall ρ hρ]
+        exact hp _ (lookup_some hlk) ρ hρ (fun x hx => hd x (hsub x hx))
+      | none =>
+        let ls' := l1 :: l2 :: t
+        let cs : Lit → List (List Lit) := fun ctr => ls'.map (fun l => [ctr.neg, l]) ++ [ctr :: ls'.map Lit.neg]
+        show Mono s (freshDef s (.conj ls') cs).2 ∧ PInv (freshDef s (.conj ls') cs).2 ∧
+          ∀ ρ, BcpFix ρ (freshDef s (.conj ls') cs).2 → _ → plit ρ (freshDef s (.conj ls') cs).1 = _
+        obtain ⟨f1, f2, f3, f4⟩ := freshDef_p (s := s) (.conj ls') cs
+          (by
+            intro c hc x hx
+            simp only [cs, List.mem_append, List.mem_map, List.mem_singleton] at hc
+            rcases hc with ⟨y, hy, rfl⟩ | rfl
+            · simp only [List.mem_cons, List.not_mem_nil, or_false] at hx
+              rcases hx with rfl | rfl
+              · simp [Lit.neg]
+              · exact Nat.lt_succ_of_lt (hrange _ hy)
+            · simp only [List.mem_cons, List.mem_map] at hx
+              rcases hx with rfl | ⟨y, hy, rfl⟩
+              · simp
+              · exact Nat.lt_succ_of_lt (hrange y hy))
+          (by
+            intro c hc
+            simp only [cs, List.mem_append, List.mem_map, List.mem_singleton] at hc
+            rcases hc with ⟨y, hy, rfl⟩ | rfl
+            · refine ⟨_, List.mem_cons_self, y, by simp, ?_, value_fresh s _, ?_⟩
+              · have := hrange y hy; simp only [neg_var]; omega
+              · rw [value_old]; exact j2 y hy
+            · refine ⟨_, List.mem_cons_self, l1.neg, by simp [ls'], ?_, value_fresh s _, ?_⟩
+              · have := hrange l1 (by simp); simp only [neg_var]; omega
+              · rw [value_old, value_neg, j2 l1 (by simp)]; rfl)
+        have hsem : ∀ ρ, BcpFix ρ (freshDef s (.conj ls') cs).2 → (∀ x ∈ ls', plit ρ x ≠ none) →
+            plit ρ ⟨s.nvars, true⟩ = some (ls'.all (val ρ)) := by
+          intro ρ hρ hd
+          have hcl := f4 ρ hρ
+          refine conj_resp (fun l hl' => hcl _ ?_) (hcl _ ?_) hd
+          · simp only [cs, List.mem_append, List.mem_map]; exact Or.inl ⟨l, hl', rfl⟩
+          · simp [cs]
+        refine ⟨f2, fun e he ρ hρ => ?_, fun ρ hρ hd => ?_⟩
+        · rw [f3] at he
+          simp only [List.mem_append, List.mem_singleton] at he
+          rcases he with he | rfl
+          · exact hp e he ρ (BcpFix.mono f2 hρ)
+          · exact hsem ρ hρ
+        · rw [f1, ← hall ρ (BcpFix.mono f2 hρ)]
+          exact hsem ρ hρ (fun x hx => hd x (hsub x hx))
+
+/-! ## `newDisj` -/
+
+theorem disj_p {s : Enc} (hp : PInv s) {ls : List Lit} (hl : InRange s ls) :
+    Mono s (s.newDisj ls).2 ∧ PInv (s.newDisj ls).2 ∧
+    ∀ ρ, BcpFix ρ (s.newDisj ls).2 → (∀ x ∈ ls, plit ρ x ≠ none) →
+      plit ρ (s.newDisj ls).1 = some (ls.any (val ρ)) := by
+  unfold Enc.newDisj
+  cases hsc : scanJunct s true (sortByVar ls) none [] with
+  | none =>
+    refine ⟨Mono.refl s, hp, fun ρ hρ hd => ?_⟩
+    obtain ⟨l, hl1, hl2⟩ := scan_none_p hρ.2.1 hsc (fun x hx => hd x (mem_sortByVar.1 hx))
+    show plit ρ Lit.trueLit = _
+    rw [plit_trueLit hρ.1]
+    congr 1
+    symm
+    rw [List.any_eq_true]
+    exact ⟨l, mem_sortByVar.1 hl1, hl2⟩
+  | some ls' =>
+    obtain ⟨j1, j2, _⟩ := scanJunct_init_some hsc
+    have hany : ∀ ρ, BcpFix ρ s → ls'.any (val ρ) = ls.any (val ρ) := fun ρ hρ =>
+      any_congr_f ((scan_some_p hρ.2.1 hsc).trans exists_sorted_f)
+    have hsub : ∀ l ∈ ls', l ∈ ls := fun l hl' => mem_sortByVar.1 (j1 l hl')
+    have hrange : ∀ l ∈ ls', l.var < s.nvars := fun l hl' => hl l (hsub l hl')
+    match ls', hany, hsub, hrange, j2 with
+    | [], hany, _, _, _ =>
+      refine ⟨Mono.refl s, hp, fun ρ hρ _ => ?_⟩
+      show plit ρ Lit.falseLit = _
+      rw [plit_falseLit hρ.1, ← hany ρ hρ]; rfl
+    | [l], hany, hsub, _, _ =>
+      refine ⟨Mono.refl s, hp, fun ρ hρ hd => ?_⟩
+      show plit ρ l = _
+      rw [← hany ρ hρ, plit_eq_val (hd l (hsub l (by simp)))]; simp
+    | l1 :: l2 :: t, hany, hsub, hrange, j2 =>
+      dsimp only
+      cases hlk : s.lookup (.disj (l1 :: l2 :: t)) with
+      | some l =>
+        refine ⟨Mono.refl s, hp, fun ρ hρ hd => ?_⟩
+        show plit ρ l = _
+        rw [← hany ρ hρ]
+        exact hp _ (lookup_some hlk) ρ hρ (fun x hx => hd x (hsub x hx))
+      | none =>
+        let ls' := l1 :: l2 :: t
+        let cs : Lit → List (List Lit) := fun ctr => ls'.map (fun l => [l.neg, ctr]) ++ [ctr.neg :: ls']
+        show Mono s (freshDef s (.disj ls') cs).2 ∧ PInv (freshDef s (.disj ls') cs).2 ∧
+          ∀ ρ, BcpFix ρ (freshDef s (.disj ls') cs).2 → _ → plit ρ (freshDef s (.disj ls') cs).1 = _
+        obtain ⟨f1, f2, f3, f4⟩ := freshDef_p (s := s) (.disj ls') cs
+          (by
+            intro c hc x hx
+            simp only [cs, List.mem_append, List.mem_map, List.mem_singleton] at hc
+            rcases hc with ⟨y, hy, rfl⟩ | rfl
+            · simp only [List.mem_cons, List.not_mem_nil, or_false] at hx
+              rcases hx with rfl | rfl
+              · exact Nat.lt_succ_of_lt (hrange y hy)
+              · simp
+            · simp only [List.mem_cons] at hx
+              rcases hx with rfl | hx
+              · simp [Lit.neg]
+              · exact Nat.lt_succ_of_lt (hrange _ hx))
+          (by
+            intro c hc
+            simp only [cs, List.mem_append, List.mem_map, List.mem_singleton] at hc
+            rcases hc with ⟨y, hy, rfl⟩ | rfl
+            · refine ⟨(⟨s.nvars, true⟩ : Lit), by simp, y.neg, by simp, ?_, value_fresh s _, ?_⟩
+              · have := hrange y hy; simp only [neg_var]; omega
+              · rw [value_old, value_neg, j2 y hy]; rfl
+            · refine ⟨_, List.mem_cons_self, l1, by simp [ls'], ?_, value_fresh s _, ?_⟩
+              · have := hrange l1 (by simp); simp only [neg_var]; omega
+              · rw [value_old]; exact j2 l1 (by simp))
+        have hsem : ∀ ρ, BcpFix ρ (freshDef s (.disj ls') cs).2 → (∀ x ∈ ls', plit ρ x ≠ none) →
+            plit ρ ⟨s.nvars, true⟩ = some (ls'.any (val ρ)) := by
+          intro ρ hρ hd
+          have hcl := f4 ρ hρ
+          refine disj_resp (fun l hl' => hcl _ ?_) (hcl _ ?_) hd
+          · simp only [cs, List.mem_append, List.mem_map]; exact Or.inl ⟨l, hl', rfl⟩
+          · simp [cs]
+        refine ⟨f2, fun e he ρ hρ => ?_, fun ρ hρ hd => ?_⟩
+        · rw [f3] at he
+          simp only [List.mem_append, List.mem_singleton] at he
+          rcases he with he | rfl
+          · exact hp e he ρ (BcpFix.mono f2 hρ)
+          · exact hsem ρ hρ
+        · rw [f1, ← hany ρ (BcpFix.mono f2 hρ)]
+          exact hsem ρ hρ (fun x hx => hd x (hsub x hx))
+
+/-! ## `newEq` -/
+
+theorem eq_p {s : Enc} (hp : PInv s) {a b : Lit} (ha : a.var < s.nvars) (hb : b.var < s.nvars) :
+    Mono s (s.newEq a b).2 ∧ PInv (s.newEq a b).2 ∧
+    ∀ ρ, BcpFix ρ (s.newEq a b).2 → plit ρ a ≠ none → plit ρ b ≠ none →
+      plit ρ (s.newEq a b).1 = some (val ρ a == val ρ b) := by
+  unfold Enc.newEq
+  cases hva : s.value a with
+  | some va =>
+    cases hvb : s.value b with
+    | some vb =>
+      have e1 : ∀ ρ, BcpFix ρ s → val ρ a = va := fun ρ hρ => val_of_some (plit_of_value hρ.2.1 hva)
+      have e2 : ∀ ρ, BcpFix ρ s → val ρ b = vb := fun ρ hρ => val_of_some (plit_of_value hρ.2.1 hvb)
+      cases va <;> cases vb <;> dsimp only <;>
+        refine ⟨Mono.refl s, hp, fun ρ hρ _ _ => ?_⟩ <;>
+        rw [e1 ρ hρ, e2 ρ hρ] <;> first | exact plit_trueLit hρ.1 | exact plit_falseLit hρ.1
+    | none =>
+      have e1 : ∀ ρ, BcpFix ρ s → val ρ a = va := fun ρ hρ => val_of_some (plit_of_value hρ.2.1 hva)
+      cases va <;> dsimp only <;>
+        refine ⟨Mono.refl s, hp, fun ρ hρ _ hdb => ?_⟩ <;>
+        rw [e1 ρ hρ]
+      · rw [plit_neg_some (plit_eq_val hdb)]; simp
+      · rw [plit_eq_val hdb]; simp
+  | none =>
+    cases hvb : s.value b with
+    | some vb =>
+      have e2 : ∀ ρ, BcpFix ρ s → val ρ b = vb := fun ρ hρ => val_of_some (plit_of_value hρ.2.1 hvb)
+      cases vb <;> dsimp only <;>
+        refine ⟨Mono.refl s, hp, fun ρ hρ hda _ => ?_⟩ <;>
+        rw [e2 ρ hρ]
+      · rw [plit_neg_some (plit_eq_val hda)]; simp
+      · rw [plit_eq_val hda]; simp
+    | none =>
+      dsimp only
+      let k : Key := if a.idx < b.idx then Key.eq a b else Key.eq b a
+      have hksem : ∀ ρ l, PKeySem ρ k l ↔
+          (plit ρ a ≠ none → plit ρ b ≠ none → plit ρ l = some (val ρ a == val ρ b)) := by
+        intro ρ l
+        simp only [k]
+        split
+        · exact Iff.rfl
+        · show (plit ρ b ≠ none → plit ρ a ≠ none → plit ρ l = some (val ρ b == val ρ a)) ↔ _
+          rw [Bool.beq_comm]
+          exact ⟨fun h x y => h y x, fun h x y => h y x⟩
+      cases hlk : s.lookup k with
+      | some l =>
+        refine ⟨Mono.refl s, hp, fun ρ hρ hda hdb => ?_⟩
+        exact (hksem ρ l).1 (hp _ (lookup_some hlk) ρ hρ) hda hdb
+      | none =>
+        let cs : Lit → List (List Lit) := fun ctr =>
+          [[ctr.neg, a.neg, b], [ctr.neg, a, b.neg], [ctr, a.neg, b.neg], [ctr, a, b]]
+        show Mono s (freshDef s k cs).2 ∧ PInv (freshDef s k cs).2 ∧
+          ∀ ρ, BcpFix ρ (freshDef s k cs).2 → _ → _ → plit ρ (freshDef s k cs).1 = _
+        obtain ⟨f1, f2, f3, f4⟩ := freshDef_p (s := s) k cs
+          (by
+            intro c hc x hx
+            simp only [cs, List.mem_cons, List.not_mem_nil, or_false] at hc
+            rcases hc with rfl | rfl | rfl | rfl <;>
+              simp only [List.mem_cons, List.not_mem_nil, or_false] at hx <;>
+              rcases hx with rfl | rfl | rfl <;> (try simp only [neg_var]) <;> omega)
+          (by
+            intro c hc
+            simp only [cs, List.mem_cons, List.not_mem_nil, or_false] at hc
+            rcases hc with rfl | rfl | rfl | rfl
+            · refine ⟨_, List.mem_cons_self, a.neg, by simp, ?_, value_fresh s _, ?_⟩
+              · simp only [neg_var]; omega
+              · rw [value_old, value_neg, hva]; rfl
+            · refine ⟨_, List.mem_cons_self, a, by simp, ?_, value_fresh s _, ?_⟩
+              · simp only [neg_var]; omega
+              · rw [value_old, hva]
+            · refine ⟨_, List.mem_cons_self, a.neg, by simp, ?_, value_fresh s _, ?_⟩
+              · simp only [neg_var]; omega
+              · rw [value_old, value_neg, hva]; rfl
+            · refine ⟨_, List.mem_cons_self, a, by simp, ?_, value_fresh s _, ?_⟩
+              · show s.nvars ≠ a.var; omega
+              · rw [value_old, hva])
+        have hsem : ∀ ρ, BcpFix ρ (freshDef s k cs).2 → plit ρ a ≠ none → plit ρ b ≠ none →
+            plit ρ ⟨s.nvars, true⟩ = some (val ρ a == val ρ b) := by
+          intro ρ hρ hda hdb
+          have hcl := f4 ρ hρ
+          exact eq_resp (hcl _ (by simp [cs])) (hcl _ (by simp [cs])) (hcl _ (by simp [cs]))
+            (hcl _ (by simp [cs])) hda hdb
+        refine ⟨f2, fun e he ρ hρ => ?_, fun ρ hρ hda hdb => ?_⟩
+        · rw [f3] at he
+          simp only [List.mem_append, List.mem_singleton] at he
+          rcases he with he | rfl
+          · exact hp e he ρ (BcpFix.mono f2 hρ)
+          · exact (hksem ρ _).2 (hsem ρ hρ)
+        · rw [f1]
+          exact hsem ρ hρ hda hdb
+
+end FormL
+end Oratio
